@@ -2,6 +2,7 @@ package storefs
 
 import (
 	"encoding/json"
+	"math"
 	"fmt"
 	"os"
 	"reflect"
@@ -183,7 +184,7 @@ func utcp(t *time.Time) *time.Time {
 
 // TestC10Codec: what is passed to Save is what Load returns, for arbitrary payloads.
 func TestC10Codec(t *testing.T) {
-	col := ev.Get("C10", "codec", "generated PersistedData (0-4 jobs; variables of every JSON shape as the API decoder produces them: nested objects/arrays, strings with quotes/newlines/control and non-ASCII characters, odd keys, booleans, null, integers up to 2^63, non-integer numbers from decimal literals with up to 17 significant digits and exponents -300..300; error texts; exit codes over int16; timestamps with nanoseconds and zones) saved with the real JsonDataStore and loaded by a second store object; oracle: canonical (encoding/json) rendering of the loaded data equals that of the saved data; non-trivial = the snapshot carries a non-integer number or a string that needs escaping; distinct by canonical content")
+	col := ev.Get("C10", "codec", "generated PersistedData (0-4 jobs; variables of every JSON shape as the API decoder produces them: nested objects/arrays, strings with quotes/newlines/control and non-ASCII characters, odd keys, booleans, null, integers up to 2^63, non-integer numbers from decimal literals with up to 17 significant digits and exponents -300..300; error texts; exit codes over int16; timestamps with nanoseconds and zones) saved with the real JsonDataStore and loaded by a second store object; oracle: canonical (encoding/json) rendering of the loaded data equals that of the saved data; in a sixth of the cases a second save carries a value that cannot be encoded (NaN, infinities): it fails and the first snapshot is still what loads, or it succeeds and loads; non-trivial = the snapshot carries a non-integer number or a string that needs escaping; distinct by canonical content")
 	rapid.Check(t, func(rt *rapid.T) {
 		d := genPersisted(rt)
 		dir := workDir(rt)
@@ -203,6 +204,26 @@ func TestC10Codec(t *testing.T) {
 		}
 		if g := canon(got); g != want {
 			rt.Fatalf("Load returns something else than what was saved:\n saved  %s\n loaded %s", clip(want, g), clip(g, want))
+		}
+		// a payload that cannot be encoded (the Go API accepts any value as a variable): the save fails and what
+		// was saved before is still what a restart finds - or it succeeds and is what a restart finds
+		unencodable := len(d.Jobs) > 0 && rapid.IntRange(0, 5).Draw(rt, "unencodableValue") == 0
+		if unencodable {
+			bad := &store.PersistedData{Jobs: append([]store.PersistedJob(nil), d.Jobs...)}
+			j0 := bad.Jobs[0]
+			j0.Variables = map[string]interface{}{"ratio": rapid.SampledFrom([]interface{}{math.NaN(), math.Inf(1), math.Inf(-1)}).Draw(rt, "badValue")}
+			bad.Jobs[0] = j0
+			serr := st.Save(bad)
+			st3, _ := store.NewJSONDataStore(dir)
+			got3, lerr := st3.Load()
+			if lerr != nil {
+				rt.Fatalf("after a save of a value that cannot be encoded (Save returned %v) the store does not load any more: %v", serr != nil, strip(lerr, dir))
+			}
+			if serr != nil {
+				if g := canon(got3); g != want {
+					rt.Fatalf("a save failed (value that cannot be encoded), yet the store no longer holds what was saved before")
+				}
+			}
 		}
 		nonInt := strings.Contains(want, "e-") || strings.Contains(want, "e+") || hasFraction(d)
 		esc := strings.Contains(want, "\\")
